@@ -56,7 +56,12 @@ def generate(rng, tier="quick"):
             for c in cuts + [len(seq)]:
                 groups.append(seq[prev:c])
                 prev = c
-        deliveries.append({"via": via, "seq": seq, "groups": groups})
+        d = {"via": via, "seq": seq, "groups": groups}
+        if via == "store":
+            # stream ids / test names per message; some pairs differ only in characters that CF-safe naming replaces
+            d["sids"] = [rng.pick(("v", "v", "v.1", "v_1", "v 1")) for _ in seq]
+            d["tests"] = [rng.pick((f"t{j}", f"t{j}", "t.x", "t_x", "t-x")) for j in range(len(seq))]
+        deliveries.append(d)
     return {"format": 1, "property": PROP, "env": wl.gen_env(rng), "n": n, "vectors": vectors, "deliveries": deliveries}
 
 
@@ -103,14 +108,20 @@ def deliver(scn, d, vecs):
 
     if d["via"] == "store":
         msgs = []
+        keys = set()
         for j, idx in enumerate(d["seq"]):
             a = vecs[idx]
             mask = ~np.ma.getmaskarray(a)
             flags = np.asarray(np.ma.getdata(a))[mask]
+            sid = (d.get("sids") or ["v"] * len(d["seq"]))[j]
+            test = (d.get("tests") or [f"t{k}" for k in range(len(d["seq"]))])[j]
+            if (sid, test) in keys:  # one collected result per (stream, test): keep the keys distinct
+                test = f"{test}{j}"
+            keys.add((sid, test))
             msgs.append(
                 ContextResult(
-                    stream_id="v",
-                    results=[CallResult("qartod", f"t{j}", qartod.spike_test, flags)],
+                    stream_id=sid,
+                    results=[CallResult("qartod", test, qartod.spike_test, flags)],
                     subset_indexes=mask,
                     data=np.zeros(int(mask.sum())),
                     tinp=np.array([], dtype="datetime64[ns]"),
